@@ -1,6 +1,7 @@
 //! oq3v: conformance harness binding the TLA+ specifications under /verif/spec to the real
 //! openqasm3_parser crates.  It renders, drives, projects and compares; expected values and
 //! allowed sets come from TLC.
+mod anz;
 mod astproj;
 mod dbg;
 mod gating;
@@ -34,6 +35,7 @@ fn main() {
         "events" => parse::dump_events(rest),
         "gram-cases" => gram::cases(rest),
         "seq-cases" => gram::seq_cases(rest),
+        "anz-cases" => anz::cases(rest),
         "lex-cases" => lex::cases(rest),
         "lex-exhaustive" => lex::exhaustive(rest),
         "lex-record" => lex::record(rest),
